@@ -245,6 +245,14 @@ func verifCodeSet(typeptr uintptr, set *OpcodeSet, index int) {
 		return
 	}
 	vcStats.FastPath++
+	// the address-indexed table is only for descriptors inside [BaseTypeAddr, MaxTypeAddr], and a
+	// descriptor's slot is a function of its whole address
+	if typeptr < typeAddr.BaseTypeAddr || typeptr > typeAddr.MaxTypeAddr || uintptr(index) != (typeptr-typeAddr.BaseTypeAddr)>>typeAddr.AddrShift {
+		vcStats.SlotCollision++
+		if len(vcReports) < 16 {
+			vcReports = append(vcReports, fmt.Sprintf("encoder cache slot %d used for a descriptor outside the address window or with another slot number", index))
+		}
+	}
 	if o, ok := vcOwner[index]; !ok {
 		vcOwner[index] = typeptr
 	} else if o != typeptr {
